@@ -41,6 +41,10 @@ def spaces(tier, seed):
     sp.append(('aa-arom', F.FBound(atoms=[A('c1ccccc1'), A('C'), A('[O-]')], bonds=(), descs=[('$', ''), ('!', '')],
                                    dsyms=(None,), max_atoms=3, max_descs=2, max_depth=1, max_rings=0, max_lead=0,
                                    max_annot=0), 3, True))
+    # explicit hydrogen atoms are nodes of a fragment like any other atom
+    sp.append(('aa-hydrogen', F.FBound(atoms=[A('C'), A('O'), A('[H]'), A('[CH2]')], bonds=(), descs=[('$', '')],
+                                       dsyms=(None,), max_atoms=3 if q else 4, max_descs=1 if q else 2, max_depth=1, max_rings=0,
+                                       max_lead=1, max_annot=0), 3, True))
     sp.append(('cg-frag', F.FBound(atoms=[A('[#A]'), A('[#B1]')], bonds=('=', '.'), descs=[('$', ''), ('<', 'x')],
                                    dsyms=(None, '='), max_atoms=3, max_descs=2 if q else 3, max_depth=1, max_rings=1,
                                    ring_styles=('d',), max_lead=1, max_annot=0, max_bonds=1, bond_after_open=False), 3, False))
